@@ -89,9 +89,10 @@ theorem src_apply_batched_eq (ap : Fn) (x : Arr) (b : Option Int) :
     by_cases hx : x = []
     · subst hx; simp [srcTransform_apply_batched, applyBatchedE]
     · have h0 := length_cast_ne_zero x hx
-      have h := batched_loop_eq ap x k hx
+      -- loop or comprehension: both are brought to the canonical form `mapME` (`forLoopE_append`)
+      have h := batched_comp_eq ap x k hx
       simp only [srcTransform_apply_batched, Option.isNone_some, Option.isSome_some, Bool.false_eq_true, if_false,
-        if_true, h0, Bool.not_false, add_some, bind_ok_eta] at h ⊢
+        if_true, h0, Bool.not_false, add_some, bind_ok_eta, forLoopE_append, List.nil_append, map_id_eta] at h ⊢
       exact h
 
 theorem src_apply_eq (callT : PV → Fn → Except Err PV) (ap : Fn) (x : PV) (b : Option Int) :
